@@ -218,18 +218,23 @@ Proof. induction sh; intros; cbn [map]; auto. rewrite IHsh. f_equal. lia. Qed.
 
 (** reshaping the deshaped array to the original shape gives the array back
     ("un reshape works equivalently to fork shape deshape", defs.rs:1562) *)
-Theorem reshape_deshape : forall a, wf a -> Forall (fun n => Z.of_nat n <= range_limit)%Z (ash a) ->
+Theorem reshape_deshape : forall a, wf a -> Forall (fun n => Z.of_nat n <= amt_limit)%Z (ash a) ->
+  (zprod (map Z.of_nat (ash a)) * Z.max 1 (Z.of_nat (length (adata a))) <= size_limit)%Z ->
   p_reshape None false (map (fun n => AInt (Z.of_nat n)) (ash a)) (p_deshape a) = Ok a.
 Proof.
-  intros [t sh d] Hw Hl; unfold wf in Hw; cbn [aty ash adata] in *. unfold p_reshape; cbn.
+  intros [t sh d] Hw Hl Hz; unfold wf in Hw; cbn [aty ash adata] in *. unfold p_reshape; cbn [aty ash adata p_deshape].
   assert (E1 : existsb (fun m => match m with AFrac | ANaN => true | _ => false end) (map (fun n => AInt (Z.of_nat n)) sh) = false).
   { clear. induction sh; cbn; auto. }
-  assert (E2 : existsb (fun m => match m with AInt z => (range_limit <? Z.abs z)%Z | _ => false end) (map (fun n => AInt (Z.of_nat n)) sh) = false).
-  { clear - Hl. induction Hl; cbn; auto. rewrite IHHl. destruct (Z.ltb_spec range_limit (Z.abs (Z.of_nat x))); auto; lia. }
+  assert (E2 : existsb (fun m => match m with AInt z => (amt_limit <? Z.abs z)%Z | _ => false end) (map (fun n => AInt (Z.of_nat n)) sh) = false).
+  { clear - Hl. induction Hl; cbn; auto. rewrite IHHl. destruct (Z.ltb_spec amt_limit (Z.abs (Z.of_nat x))); auto; lia. }
+  assert (E4 : map (fun m => match m with AInt z => Z.abs z | _ => 1%Z end) (map (fun n => AInt (Z.of_nat n)) sh) = map Z.of_nat sh).
+  { clear. induction sh; cbn [map]; auto. rewrite IHsh. f_equal. lia. }
   assert (E3 : filter (fun m => match m with AInf _ => true | _ => false end) (map (fun n => AInt (Z.of_nat n)) sh) = []).
   { clear. induction sh; cbn; auto. }
-  rewrite E1, E2, E3. cbn.
-  rewrite map_dims.
+  rewrite E1, E2, E4. unfold zlen.
+  destruct (Z.ltb_spec size_limit (zprod (map Z.of_nat sh) * Z.max 1 (Z.of_nat (length d)))); [lia|].
+  rewrite E3. cbn [length Nat.ltb Nat.leb box_fill fill_for Nat.eqb andb].
+  rewrite !map_dims.
   assert (S2 : map amt_neg (map (fun n => AInt (Z.of_nat n)) sh) = map (fun _ => false) sh).
   { clear. induction sh; cbn; auto. rewrite IHsh. f_equal. destruct (Z.ltb_spec (Z.of_nat a) 0); auto; lia. }
   rewrite S2, <- Hw, cyc_all.
